@@ -158,11 +158,15 @@ func scenario(c dcfg, pb int) *explore.Scenario {
 		vrt.Go("remote", func() {
 			// one remote thread uses the three channels in turn: isolation is about dispatch,
 			// the concurrency that matters is remote vs raw vs the local dispatch threads
+			// the payload is a two-segment vector built, as callers do, by appending to one
+			// shared base vector with spare capacity: a layer that frames in place inside the
+			// caller's backing array corrupts what the next channel sends
+			base := append(make(p2p.IOVec, 0, 6), []byte("for-channel-"))
 			for i := 0; i < 3; i++ {
-				payload := []byte(fmt.Sprintf("for-channel-%d", i))
+				vec := append(base, []byte(fmt.Sprint(i)))
 				if c.ask {
 					resp := make([]byte, 8)
-					n, err := remotes[i].Ask(bg, resp, local.LocalAddr(), p2p.IOVec{payload})
+					n, err := remotes[i].Ask(bg, resp, local.LocalAddr(), vec)
 					l.cell.Touch()
 					if err != nil {
 						l.askRes[fmt.Sprint(i)] = "err"
@@ -170,7 +174,7 @@ func scenario(c dcfg, pb int) *explore.Scenario {
 						l.askRes[fmt.Sprint(i)] = string(resp[:n])
 					}
 				} else {
-					remotes[i].Tell(bg, local.LocalAddr(), p2p.IOVec{payload})
+					remotes[i].Tell(bg, local.LocalAddr(), vec)
 					if c.queueLen > 0 {
 						// a full queue drops: let each message be consumed before the next reuses the slot
 						want := i + 1
